@@ -133,7 +133,8 @@ def run(spec, tier, seed, replay=None):
     ev = {"property_id": pid, "tier": tier, "seed": seed, "level": "proof", "coverage": cov,
           "assumptions": spec.get("assumptions", []), "wall_s": round(time.time() - t0, 2),
           "violations": violations}
-    C.write_json(os.path.join(C.VERIF, "evidence", pid + ".json"), ev)
+    # a replay run re-executes one stored case; it must not replace the evidence of the last full run
+    C.write_json(os.path.join(outdir, "evidence.json") if replay else os.path.join(C.VERIF, "evidence", pid + ".json"), ev)
     for l in lines:
         print(l)
     print("%s tier=%s seed=%d theorems=%d/%d cases=%d nontrivial=%d model-evaluated=%d mismatches=%d "
